@@ -246,6 +246,10 @@ let handle (req : sexp) : sexp =
     let counts = Array.make n_groups 0 in
     for g = 0 to n_groups - 1 do counts.(out_pos g) <- count_of g done;
     zl (build_group_sorted_indexer chs (List.map z_of_int (Array.to_list counts)) key_map mask)
+  | L [A "var_bound"; u; n; kn; kd; m; h1; h2] ->
+    (* the proved rounding bound of the one-pass variance (Proofs/VarFloat.v), evaluated exactly *)
+    let q s = this (qc_of_string (atom s)) in
+    A (string_of_qc (q2Qc (var_bound (q u) (q n) (q kn) (q kd) (q m) (nat_of h1) (nat_of h2))))
   | L [A "bool_labels"; rows] ->
     (* per row of 0/1: the mask and the column positions its label names *)
     L (List.map (fun r ->
